@@ -72,3 +72,8 @@ check("C11", "fault_enumeration", "runtime monitoring under a virtual clock: sta
       "Trusted: the virtual clock substitution (module attribute `time` of adb_device / adb_device_async) and the cost model of the in-memory transport (a read that finds nothing "
       "advances the clock by its timeout). Not decided: read_timeout_s=None, auth_timeout_s=None with a silent device.",
       "DESIGN.md section 4 C11")
+check("C12", "fault_enumeration", "runtime monitoring with fault injection at every transport-call index: raise-or-correct oracle, lock-state invariant, close/reconnect/replay oracle, stale-store invariant",
+      "The fault-free scenario's transport-call sequence is enumerated completely: at every index each failure kind is injected once or persistently; each step must raise "
+      "or pass its result oracle; then lock state, close(), connect() to the healed device, the packet store's content and a full replay of the scenario are checked.",
+      "Trusted: the in-memory transport's fault injector; lock and store state are read from the objects' attributes after the operation ended (invariant at a quiescent point).",
+      "DESIGN.md section 4 C12")
